@@ -148,6 +148,40 @@ def _update_guard_tick(ctx, prop_prefix):
             ctx.ok(site(fn, bi), "Snapshot::update runs before the worker's pattern is replaced (%d write site(s) after it)" % len(wr))
 
 
+def _cancel_edge_marks(run, sw, qt):
+    """Every loop-free path from the cancelled edge of the sort to the end of run stores `true` (or the sort's result) into
+    was_canceled; evaluated path by path so that a flag returned by a folded-in helper has its value on that path."""
+    from cfg import decision_paths
+    e = run.expr_of_operand(sw["discr"])
+    if not (e[0] == "call" and e[1] == "par_sort::par_quicksort"):
+        return False
+    try:
+        seed = {qt["dest"]["l"]: ("const", 1, None, "bool")} if not qt["dest"]["p"] else {}
+        paths = decision_paths(run, start=sw["otherwise"], free_locals=True, with_trace=True, limit=2000, init_env=seed)
+    except Inconclusive:
+        return False
+    if not paths:
+        return False
+    for conds, res, trace in paths:
+        marked = False
+        for ev in trace:
+            if ev[0] != "store":
+                continue
+            pl = ev[1]
+            if not (isinstance(pl, tuple) and pl and pl[0] == "field" and pl[2] == "was_canceled"):
+                continue
+            v = strip_casts(ev[2])
+            if v[0] == "const" and v[1] in (1, True):
+                marked = True
+            elif v[0] == "const":
+                marked = False
+            elif any(x[0] == "call" and str(x[1]) == "par_sort::par_quicksort" for x in walk(v)) or v[0] == "free":
+                marked = True
+        if not marked:
+            return False
+    return True
+
+
 def update_guard(ctx, prop_prefix):
     """Shared by C06/C12: the only Snapshot::update call sits behind running && !was_canceled && !state.canceled()."""
     if not getattr(ctx, "tick_flat", False):
@@ -201,6 +235,10 @@ def update_guard(ctx, prop_prefix):
         s_marks = [b_ for b_, k_ in writes if k_ == "S"]
         if s_marks and run.all_paths_to_return_pass(qt["target"], via_nodes=s_marks):
             okc = True
+    if not okc and sw["k"] == "switch":
+        # the verdict of the sort may travel through a returned flag (`let finished = self.rematch(..); if !finished
+        # { self.was_canceled = true }`): decide per path from the cancelled edge, with the flag's value on that path
+        okc = _cancel_edge_marks(run, sw, qt)
     if okc:
         ctx.ok(site(run, qb), "a cancelled sort always marks the run was_canceled")
     else:
